@@ -789,6 +789,12 @@ class BinaryOp(Expr):
         left = self.left.eval()
         right = self.right.eval()
         if self.op.is_comparison:
+            # like the machine: by character code (code page 437)
+            try:
+                left = left.encode('cp437')
+                right = right.encode('cp437')
+            except UnicodeEncodeError:
+                pass
             return {
                 Operator.CMP_EQ: lambda a, b: a == b,
                 Operator.CMP_NE: lambda a, b: a != b,
